@@ -97,7 +97,7 @@ class Family:
             kept.append(it)
         return progs, kept
 
-    def differential(self, progs, nstates, clang=False, nontrivial=None, key_of=None):
+    def differential(self, progs, nstates, clang=False, nontrivial=None, key_of=None, deepen=False):
         """Runs the comparison, attributes failures, records violations. Returns list of (prog, result, status)
         with status in ok|known:<mech>|violation|inconclusive."""
         run = self.run
@@ -141,6 +141,31 @@ class Family:
                 failed.append((p, r))
         if failed:
             out.extend(self.attribute(failed, nstates))
+        if deepen:
+            # directed deepening: programs that agreed so far but left BRANCH/ITE arms untaken get more states from another stream
+            again = [p for p, r, st in out if st == "ok" and r.arms_total and r.arms_seen < r.arms_total]
+            if again:
+                self.stats["deepened_programs"] += len(again)
+                results2, _ = self.S.differential(again, nstates * 3, seed=run.seed + 7919)
+                failed2 = []
+                for p, r in zip(again, results2):
+                    self.stats["evaluations"] += r.compared
+                    self.stats["ub_skipped"] += r.ub
+                    self.arms[0] += max(0, r.arms_seen - next(x[1].arms_seen for x in out if x[0] is p))
+                    if r.verdict() in ("diff", "ilsort", "defuse", "ilsyntax"):
+                        failed2.append((p, r))
+                if failed2:
+                    # states of the second stream are reproduced by the replay through the recorded seed offset
+                    for p, r in failed2:
+                        p.extra["seed_offset"] = 7919
+                    out = [x for x in out if x[0] not in [f[0] for f in failed2]]
+                    self.stats["programs_ok"] -= len(failed2)
+                    saved = run.seed
+                    run.seed = saved + 7919
+                    try:
+                        out.extend(self.attribute(failed2, nstates * 3))
+                    finally:
+                        run.seed = saved
         return out
 
     def attribute(self, failed, nstates):
@@ -232,6 +257,7 @@ class Family:
             "il_ops_executed": sorted(self.ops_seen), "contract_evaluations": dict(self.contract_evals),
             "grammar_rules_reached": len(self.rules), "ub_detector_selftest": self.info.get("selftest_ok"),
             "known_finding_programs": self.stats["known_finding_programs"], "violating_programs": self.stats["violating_programs"],
+            "programs_deepened_for_untaken_arms": self.stats["deepened_programs"],
         }
 
 
